@@ -207,6 +207,19 @@ func init() {
 			st.ReplayCalls += ss.ReplayCalls
 			st.Exhaustive = st.Exhaustive && ss.Exhaustive
 		}
+		// the same search, one level less deep, on a database whose change log holds aged events and is trimmed at every
+		// commit (the change log is a collection like the others: whatever indexes it has stay coherent too)
+		aged := cfg
+		aged.Depth = depth - 1
+		aged.New = func() *world.World { return c09NewWorld(true) }
+		if len(cfg.ReplayNames) == 0 {
+			sa := e1.BFS(aged)
+			st.States += sa.States
+			st.Transitions += sa.Transitions
+			st.ReplayCalls += sa.ReplayCalls
+			st.Exhaustive = st.Exhaustive && sa.Exhaustive
+			r.Set("states_with_trimming_retention", sa.States)
+		}
 		r.Set("states", st.States)
 		r.Set("transitions", st.Transitions)
 		r.Set("traces_validated_against_impl", st.Transitions)
